@@ -251,8 +251,8 @@ impl Pool {
         self.conn
             .query_row(
                 "SELECT
-             SUM(CASE WHEN expiry > ?1 THEN 1 ELSE 0 END) as active,
-             SUM(CASE WHEN expiry <= ?1 THEN 1 ELSE 0 END) as expired
+             COALESCE(SUM(CASE WHEN expiry > ?1 THEN 1 ELSE 0 END), 0) as active,
+             COALESCE(SUM(CASE WHEN expiry <= ?1 THEN 1 ELSE 0 END), 0) as expired
              FROM leases",
                 rusqlite::params![ts],
                 |row| Ok((row.get(0)?, row.get(1)?)),
